@@ -173,6 +173,68 @@ pub enum Case {
     /// 2 large) freely among those that can hold its fields - what another implementation of the format, or a relay
     /// that re-encodes, may send. The parser must yield the same frame whatever forms were used.
     Forms { seq: u32, nonce: bool, dgs: Vec<SDatagram>, forms: Vec<u8> },
+    /// an ack frame in which the nonce byte of group `which` is set to `value` (the nonce occupies a whole byte; any
+    /// non-zero value means 1), re-checksummed
+    AckNonceByte { fbase: u32, pbase: u32, groups: Vec<(u32, u32, bool)>, which: u8, value: u8 },
+    /// a frame whose last four body bytes are chosen so that its checksum is exactly 0 (0 is a checksum like any other)
+    CrcZero { frame: SFrame },
+}
+
+/// Solves for the last four body bytes that make the checksum 0 (the checksum is affine in them and the map is a bijection).
+fn with_zero_crc(mut bytes: Vec<u8>) -> Option<Vec<u8>> {
+    let n = bytes.len();
+    if n < 9 {
+        return None;
+    }
+    let body = n - 4;
+    for b in bytes[body - 4..body].iter_mut() {
+        *b = 0;
+    }
+    let c0 = crc32(&bytes[..body]);
+    // syndromes of the 32 free bits
+    let mut rows: Vec<(u32, u32)> = Vec::with_capacity(32); // (syndrome, which bit)
+    for i in 0..32u32 {
+        let mut m = bytes[..body].to_vec();
+        m[body - 4 + (i / 8) as usize] ^= 1 << (i % 8);
+        rows.push((crc32(&m) ^ c0, 1 << i));
+    }
+    // Gaussian elimination over GF(2): find x with XOR of syndromes = c0
+    let mut target = c0;
+    let mut x = 0u32;
+    let mut basis: Vec<(u32, u32)> = Vec::new();
+    for (mut s, mut who) in rows {
+        for (bs, bw) in basis.iter() {
+            if s & (1 << (31 - bs.leading_zeros())) != 0 && *bs != 0 {
+                s ^= *bs;
+                who ^= *bw;
+            }
+        }
+        if s != 0 {
+            basis.push((s, who));
+            basis.sort_by(|a, b| b.0.cmp(&a.0));
+        }
+    }
+    for (bs, bw) in basis.iter() {
+        if *bs != 0 && target & (1 << (31 - bs.leading_zeros())) != 0 {
+            target ^= *bs;
+            x ^= *bw;
+        }
+    }
+    if target != 0 {
+        return None;
+    }
+    for i in 0..32u32 {
+        if x & (1 << i) != 0 {
+            bytes[body - 4 + (i / 8) as usize] ^= 1 << (i % 8);
+        }
+    }
+    if crc32(&bytes[..body]) != 0 {
+        return None;
+    }
+    for b in bytes[body..].iter_mut() {
+        *b = 0;
+    }
+    Some(bytes)
 }
 
 /// Encodes a data frame with the given header form per datagram (raised to the smallest form that can hold the fields).
@@ -251,6 +313,19 @@ pub fn case_bytes(case: &Case) -> Vec<u8> {
         }
         Case::Repeated { frame, times, count } => repeated_bytes(frame, *times, *count),
         Case::Forms { seq, nonce, dgs, forms } => encode_with_forms(*seq, *nonce, dgs, forms).0,
+        Case::AckNonceByte { fbase, pbase, groups, which, value } => {
+            let mut bytes = SFrame::AckF { fbase: *fbase, pbase: *pbase, groups: groups.clone() }.build().write().to_vec();
+            if !groups.is_empty() {
+                let g = *which as usize % groups.len();
+                bytes[11 + 9 * g + 8] = *value;
+                set_crc(&mut bytes);
+            }
+            bytes
+        }
+        Case::CrcZero { frame } => {
+            let bytes = frame.build().write().to_vec();
+            with_zero_crc(bytes.clone()).unwrap_or(bytes)
+        }
         Case::BitFlip { frame, positions } => {
             let mut bytes = frame.build().write().to_vec();
             let nbits = bytes.len() * 8;
@@ -427,6 +502,13 @@ impl Check for C16 {
                 }),
             4 => (frame_strategy(40), proptest::collection::vec(mutation_strategy(), 1..4), prop_oneof![3 => Just(true), 1 => Just(false)]).prop_map(|(frame, muts, fix_crc)| Case::Mutated { frame, muts, fix_crc }),
             3 => (frame_strategy(150), proptest::collection::vec(any::<u16>(), 1..=4)).prop_map(|(frame, positions)| Case::BitFlip { frame, positions }),
+            1 => (edge_u32(), edge_u32(), proptest::collection::vec((edge_u32(), edge_u32(), any::<bool>()), 1..5), any::<u8>(), prop_oneof![Just(2u8), Just(0x80u8), Just(0xFFu8), Just(0u8), Just(1u8), any::<u8>()]).prop_map(|(fbase, pbase, groups, which, value)| Case::AckNonceByte { fbase, pbase, groups, which, value }),
+            1 => prop_oneof![
+                edge_u32().prop_map(|nonce_ack| SFrame::Ack { nonce_ack }),
+                (edge_u32(), edge_u32()).prop_map(|(f, p)| SFrame::Sync { frame: Some(f), packet: Some(p) }),
+                (edge_u32(), edge_u32(), edge_u32(), edge_u32(), edge_u32()).prop_map(|(nonce_ack, nonce, rate, size, alloc)| SFrame::SynAck { nonce_ack, nonce, rate, size, alloc }),
+                (edge_u32(), any::<bool>(), any::<u64>(), 4u32..200).prop_map(|(seq, nonce, fill, len)| SFrame::Data { seq, nonce, dgs: vec![SDatagram { seq: (fill as u32) & 0xFFFFF, ch: (fill >> 20) as u8 & 63, w: 0, h: 0, f: 0, l: 0, len, fill }] }),
+            ].prop_map(|frame| Case::CrcZero { frame }),
             2 => (edge_u32(), any::<bool>(), proptest::collection::vec((datagram_strategy(), 0u8..3), 1..8)).prop_map(|(seq, nonce, v)| {
                 let (dgs, forms): (Vec<SDatagram>, Vec<u8>) = v.into_iter().unzip();
                 Case::Forms { seq, nonce, dgs, forms }
@@ -453,7 +535,7 @@ impl Check for C16 {
     }
 
     fn rule(&self) -> String {
-        "cases: RoundTrip (generated frame of any of the nine types, boundary-biased fields), Bytes (random bytes / typed prefix + padding, checksum optionally fixed), Mutated (valid frame with 1-3 structural mutations, checksum usually re-fixed), BitFlip (valid frame <= 1472 B with 1-4 distinct bit flips through the real Frame::read), Forms (a data frame of 1-7 datagrams written by the harness's own encoder, each datagram in a freely chosen header form among those that can hold its fields: must be read as exactly that frame). Non-trivial: RoundTrip with a field on an encoding threshold (len 63/64/255/256, W 127/128, H 255/256, L 0/1, 127 datagrams, >=155 ack groups) or a multi-datagram frame; Bytes/Mutated whose input passed the CRC gate; BitFlip always. Distinct = distinct serialised case. Plus an exhaustive decision of all 1..4-bit error patterns over 11776 bit positions (coverage.crc_enumeration).".into()
+        "cases: RoundTrip (generated frame of any of the nine types, boundary-biased fields), Bytes (random bytes / typed prefix + padding, checksum optionally fixed), Mutated (valid frame with 1-3 structural mutations, checksum usually re-fixed), BitFlip (valid frame <= 1472 B with 1-4 distinct bit flips through the real Frame::read), AckNonceByte (an ack frame with one group's nonce byte set to an arbitrary value, re-checksummed), CrcZero (a handshake ack / sync / SYN-ACK / data frame whose last four body bytes are solved for so that its checksum is exactly 0), Forms (a data frame of 1-7 datagrams written by the harness's own encoder, each datagram in a freely chosen header form among those that can hold its fields: must be read as exactly that frame). Non-trivial: RoundTrip with a field on an encoding threshold (len 63/64/255/256, W 127/128, H 255/256, L 0/1, 127 datagrams, >=155 ack groups) or a multi-datagram frame; Bytes/Mutated whose input passed the CRC gate; BitFlip always. Distinct = distinct serialised case. Plus an exhaustive decision of all 1..4-bit error patterns over 11776 bit positions (coverage.crc_enumeration).".into()
     }
 
     fn assumptions(&self) -> Vec<String> {
@@ -572,6 +654,15 @@ impl Check for C16 {
                         let nt = classes.contains(&"bytes_passed_crc_gate");
                         CaseResult::ok(nt, classes)
                     }
+                    Err(v) => CaseResult { violation: Some(v), nontrivial: true, classes },
+                }
+            }
+            Case::AckNonceByte { .. } | Case::CrcZero { .. } => {
+                let bytes = case_bytes(case);
+                let zero_crc = matches!(case, Case::CrcZero { .. }) && bytes.len() >= 4 && bytes[bytes.len() - 4..] == [0, 0, 0, 0];
+                classes.push(if matches!(case, Case::CrcZero { .. }) { if zero_crc { "checksum_exactly_zero" } else { "checksum_zero_not_constructible" } } else { "ack_group_nonce_byte_set" });
+                match check_bytes(&bytes, &mut classes) {
+                    Ok(_) => CaseResult::ok(true, classes),
                     Err(v) => CaseResult { violation: Some(v), nontrivial: true, classes },
                 }
             }
